@@ -68,6 +68,29 @@ func runStream(env *cliEnv, c J, emit func(J)) {
 			}
 		}
 	}
+	if cmd == "split-join-repair" {
+		// the pipeline  gts split <locator> | gts join | gts repair
+		r1 := env.run(dir, "split", args, inName, "stdout", true, 0)
+		ev["status"] = r1.status
+		if r1.status != 0 {
+			emit(ev)
+			return
+		}
+		mid := "mid-" + id
+		ioutil.WriteFile(filepath.Join(env.inputs, mid), r1.out, 0644)
+		r2 := env.run(dir, "join", nil, mid, "stdout", true, 1)
+		ev["status"] = r2.status
+		if r2.status != 0 {
+			os.Remove(filepath.Join(env.inputs, mid))
+			emit(ev)
+			return
+		}
+		ioutil.WriteFile(filepath.Join(env.inputs, mid), r2.out, 0644)
+		defer os.Remove(filepath.Join(env.inputs, mid))
+		inName = mid
+		cmd = "repair"
+		args = nil
+	}
 	res := env.run(dir, cmd, args, inName, "stdout", cmd != "length", 0)
 	ev["status"] = res.status
 	se := res.stderr
